@@ -103,6 +103,10 @@ pub enum SteelVal {
 pub struct TemporaryMutableView<T> {
     pub view: SharedMut<*mut T>,
 }
+pub type StandardSharedMut<T> = Arc<RwLock<T>>;
+pub trait AsRefSteelValFromRef: Sized {
+    fn as_ref_from_ref(val: &SteelVal) -> Result<crate::x_gc::TemporaryReadonlyView<Self>>;
+}
 pub trait AsRefMutSteelValFromRef: Sized {
     fn as_mut_ref_from_ref(val: &SteelVal) -> Result<TemporaryMutableView<Self>>;
 }
